@@ -71,7 +71,7 @@ def judge(case):
         tol = 1e-9 * ab + 1e-14 * nb
         if T is not None:
             val, tol = T @ val, np.abs(T) @ tol
-        return val, tol + 1e-300
+        return val, tol + 1e-250  # absolute floor: products that underflow (values below 1e-250) are not judged
 
     val0, tol0 = ref((0, 0, 0))
     got = lib(evaluate_basis, bas, pts, transform=T)
